@@ -13,38 +13,39 @@ import (
 )
 
 type HarnessSpec struct {
-	Property  string `json:"property"`
-	Name      string `json:"name"`
-	Pkg       string `json:"pkg"`  // "", "decor", "internal", "cwriter"
-	Func      string `json:"func"` // harness entry point
-	Int       bool   `json:"int"`  // int/real arithmetic mode
-	Unwind    int    `json:"unwind"`
-	Steps     int    `json:"steps"`
-	Symbolic  bool   `json:"symbolic"` // scheduler choice is a solver variable
-	Tier      string `json:"tier"`     // quick | thorough | both
-	TimeoutMs int    `json:"timeout_ms"`
-	Solver    string `json:"solver"`
-	SliceCap  int    `json:"slice_cap"`
-	Facet     string `json:"facet"`
-	NoPrune   bool   `json:"no_prune"`
-	NoReplay  bool   `json:"no_replay"` // harness cannot run natively (uses engine-only vocabulary)
-	NoBatch   bool   `json:"no_batch"`
-	SymFrom   int    `json:"sym_from"` // symbolic-schedule window [sym_from, sym_to)
-	SymTo     int    `json:"sym_to"`
-	Policy    string `json:"policy"`   // baseline schedule outside the window
-	Window    int    `json:"window"`   // expand into a family of windows of this length ...
-	Stride    int    `json:"stride"`   // ... every stride steps over the baseline run
-	Policies  []string `json:"policies"`
+	Property      string   `json:"property"`
+	Name          string   `json:"name"`
+	Pkg           string   `json:"pkg"`  // "", "decor", "internal", "cwriter"
+	Func          string   `json:"func"` // harness entry point
+	Int           bool     `json:"int"`  // int/real arithmetic mode
+	Unwind        int      `json:"unwind"`
+	Steps         int      `json:"steps"`
+	Symbolic      bool     `json:"symbolic"` // scheduler choice is a solver variable
+	Tier          string   `json:"tier"`     // quick | thorough | both
+	TimeoutMs     int      `json:"timeout_ms"`
+	Solver        string   `json:"solver"`
+	SliceCap      int      `json:"slice_cap"`
+	Facet         string   `json:"facet"`
+	NoPrune       bool     `json:"no_prune"`
+	NoReplay      bool     `json:"no_replay"` // harness cannot run natively (uses engine-only vocabulary)
+	NoBatch       bool     `json:"no_batch"`
+	SymFrom       int      `json:"sym_from"` // symbolic-schedule window [sym_from, sym_to)
+	SymTo         int      `json:"sym_to"`
+	Policy        string   `json:"policy"` // baseline schedule outside the window
+	Window        int      `json:"window"` // expand into a family of windows of this length ...
+	Stride        int      `json:"stride"` // ... every stride steps over the baseline run
+	Policies      []string `json:"policies"`
 	QuickWindows  []int    `json:"quick_windows"`  // window starts also run in the quick tier
 	QuickPolicies []string `json:"quick_policies"` // policies of the quick tier (default: all)
 	Repeat        int      `json:"repeat"`
 	BudgetS       int      `json:"budget_s"`
-	BranchPrune   bool     `json:"branch_prune"` // wall-clock budget of one symbolic execution
-	Classes       []string `json:"classes"`    // obligation classes judged for this property (empty = all)
-	AssertIDs     []string `json:"assert_ids"` // substrings of assertion ids judged (empty = all)         // native replay: repeat up to this many times (schedule-dependent scenarios)
-	Params    map[string]int64   `json:"params"` // concrete parameters of this run
-	Expand    map[string][]int64 `json:"expand"` // one run per combination of these parameter values
-	Stubs     map[string]string `json:"stubs"` // repository function -> contract function in the overlay (assume-guarantee)
+	isWindow      bool
+	BranchPrune   bool               `json:"branch_prune"` // wall-clock budget of one symbolic execution
+	Classes       []string           `json:"classes"`      // obligation classes judged for this property (empty = all)
+	AssertIDs     []string           `json:"assert_ids"`   // substrings of assertion ids judged (empty = all)         // native replay: repeat up to this many times (schedule-dependent scenarios)
+	Params        map[string]int64   `json:"params"`       // concrete parameters of this run
+	Expand        map[string][]int64 `json:"expand"`       // one run per combination of these parameter values
+	Stubs         map[string]string  `json:"stubs"`        // repository function -> contract function in the overlay (assume-guarantee)
 }
 
 type ObResult struct {
